@@ -140,11 +140,17 @@ MUTANTS = [
      "            if val.step is not None and val.step != 1:\n",
      "            if val.step is not None:\n"),
     ('M42', 'C12', 'right-justify-fill-cannot-be-an-align-char', A,
-     "        match = re.search(r'^(.?)([+-]?)>([0-9]*)$', string_format)\n",
-     "        match = re.search(r'^([^<>^]?)([+-]?)>([0-9]*)$', string_format)\n"),
+     "        match = re.search(r'^(.?)([+-]?)>([0-9]*)\\Z', string_format, re.DOTALL)\n",
+     "        match = re.search(r'^([^<>^]?)([+-]?)>([0-9]*)\\Z', string_format, re.DOTALL)\n"),
     ('M43', 'C15', 'one-ansiformat-member-out-of-range', F,
      "    FG_ORANGE_RED=_AnsiControlFn.fg_color256(202)\n",
      "    FG_ORANGE_RED=_AnsiControlFn.fg_color256(2020)\n"),
+    ('M45', 'C01', 'optimiser-drops-codes-beyond-six-groups', A,
+     "                elif len(optimized_codes_str) < len(codes_str):\n                    codes_str = optimized_codes_str\n",
+     "                elif len(optimized_codes_str) < len(codes_str):\n                    codes_str = optimized_codes_str\n                elif len(settings_to_apply) > 6:\n                    codes_str = ansi_sep.join(settings_to_apply[:6])\n"),
+    ('M46', 'C01', 'non-optimised-path-emits-top-eleven-only', A,
+     "            settings_to_apply = [str(s) for s in current_settings]\n",
+     "            settings_to_apply = [str(s) for s in current_settings[-11:]]\n"),
     ('M44', 'C01', 'code-95-registered-as-background', PA,
      "    95: (AnsiParamEffect.FG_COLOR, AnsiParamEffectFn.APPLY_SETTING),\n",
      "    95: (AnsiParamEffect.BG_COLOR, AnsiParamEffectFn.APPLY_SETTING),\n"),
